@@ -18,6 +18,11 @@ contract (deal ``ensure``) on the sidecar ``roundtrip(searcher) = pickle.loads(p
                              twin searcher and its copy;
   equality-is-pure           evaluating ``==`` leaves both class databases (classes per label, emptiness) unchanged;
   equality-is-stable         asking again gives the same answer (the comparison must not make the two differ);
+  slicing-independent        a third searcher that handles the same k packets in k calls of ``_expand_classes_for`` (one
+                             packet per call, nothing else in between) has handed out the same packets and is in the
+                             same structural state: stopping between two packets and calling again "continues from
+                             where it stopped" (whether a packet is expanded may depend on the state of the search at
+                             that moment only, not on where the calls were cut);
 then BOTH are driven by the same further calls (slices of 1, 2, 3, 5, 8, ... packets until the queue is drained or
 CONT packets were expanded) and after each slice
   same-work                  the streams of work packets handed out by the two queues are equal;
@@ -35,6 +40,12 @@ until something other than ExceededMaxtimeError comes back.  Contract (deal) on 
   no-packet-twice            over the whole series no work packet (label, strategies, inferral) is handed out twice;
   interrupted-outcome        a specification comes back iff an uninterrupted reference search finds one;
   final-specification        as above.
+
+Packs: those of the universe and two local ones with SEVERAL packets per label in a row whose first can change the
+status of the label: "stale-verified" (inferral strategy RemoveRedundantPatterns with ignore_parent=False, then the
+initial strategy; a verification strategy that refuses classes with a redundant pattern, so that the inferral packet
+makes the class equivalent to a verified class) and "two-initial" (two different initial strategies with ignore_parent=False,
+the first can complete a specification of the class -- "pumping" for the forest database).
 """
 import contextlib
 import multiprocessing
@@ -48,16 +59,22 @@ import deal
 
 import comb_spec_searcher.class_queue as class_queue
 import comb_spec_searcher.tree_searcher as tree_searcher
-from comb_spec_searcher import CombinatorialSpecificationSearcher
+from comb_spec_searcher import CombinatorialSpecificationSearcher, StrategyPack
 from comb_spec_searcher.exception import ExceededMaxtimeError, SpecificationNotFound
 from comb_spec_searcher.rule_db import RuleDBForest
 from comb_spec_searcher.rule_db.base import RuleDBBase
 from comb_spec_searcher.strategies.rule import EquivalencePathRule
+from harness.universe import PACKS as UNIVERSE_PACKS
 from harness.universe import (
-    PACKS,
     RULEDBS,
     Av,
     AvBytes,
+    ExpansionDropStat,
+    ExpansionStrategy,
+    LongPrefixVerified,
+    RemoveFrontOfPrefix,
+    RemoveRedundantPatterns,
+    StatAtomStrategy,
     brute_objects,
     class_from_repr,
     pack_applicable,
@@ -80,6 +97,36 @@ SLICES = (1, 2, 3, 5, 8, 13, 21, 34)
 def _note(check, what):
     _LAST.setdefault("notes", []).append((check, what))
     return False
+
+
+# --------------------------------------------------------------------------------------------------------------
+# local packs: several work packets per label in a row, the first of which can change the status of the label
+# --------------------------------------------------------------------------------------------------------------
+
+
+class MinimalLongPrefixVerified(LongPrefixVerified):
+    """LongPrefixVerified that refuses classes with a redundant pattern (a pattern containing another one)."""
+
+    def verified(self, comb_class):
+        minimal = not any(q != p and q in p for p in comb_class.patterns for q in comb_class.patterns)
+        return super().verified(comb_class) and minimal
+
+    def formal_step(self):
+        return f"prefix of length at least {self.k}, no redundant pattern"
+
+    def __repr__(self):
+        return f"MinimalLongPrefixVerified(k={self.k})"
+
+
+PACKS = dict(UNIVERSE_PACKS)
+PACKS["stale-verified"] = lambda: StrategyPack(
+    initial_strats=[RemoveFrontOfPrefix()], inferral_strats=[RemoveRedundantPatterns(ignore_parent=False)],
+    expansion_strats=[[ExpansionStrategy()]], ver_strats=[StatAtomStrategy(), MinimalLongPrefixVerified(k=1)],
+    name="stale-verified")
+PACKS["two-initial"] = lambda: StrategyPack(
+    initial_strats=[RemoveFrontOfPrefix(ignore_parent=False), ExpansionDropStat()], inferral_strats=[],
+    expansion_strats=[[ExpansionStrategy()]], ver_strats=[StatAtomStrategy(), LongPrefixVerified(k=3)],
+    name="two-initial")
 
 
 def truly_empty(cls: Av) -> bool:
@@ -313,6 +360,24 @@ def run_pickle_case(case):
     more = expand_packets(css, k)
     done = len(packets_of(css))
     info = {"packets_before": done, "ran_dry": not more}
+    if k >= 2:
+        # the same k packets, one call of _expand_classes_for per packet
+        COUNTS["slicing-independent"] += 1
+        stepped = CombinatorialSpecificationSearcher(start, PACKS[pack](), ruledb=RULEDBS[db]())
+        for _ in range(k):
+            if not expand_packets(stepped, 1):
+                break
+        p1, p2 = packets_of(css), packets_of(stepped)
+        if p1 != p2:
+            pos = next((i for i, (x, y) in enumerate(zip(p1, p2)) if x != y), min(len(p1), len(p2)))
+            _note("slicing-independent", f"{k} packets in one call hand out {len(p1)} packets, one call per packet "
+                  f"{len(p2)}; first difference at position {pos}: {p1[pos:pos + 1]} vs {p2[pos:pos + 1]}")
+        else:
+            a, b = snapshot(css), snapshot(stepped)
+            if a != b:
+                _note("slicing-independent", f"{k} packets in one call of _expand_classes_for vs one call per packet: "
+                      f"{_diff(a, b)}")
+        _PACKETS.pop(id(stepped.classqueue), None)
     try:
         restored = roundtrip(css)
     except deal.ContractError:
@@ -528,14 +593,17 @@ _STARTS = [
     Av("", ["abb", "ba"], "ab", False, ("nb",)),
     Av("", ["aab", "abb"], "ab", False, ("na", "na2")),
 ]
-_PACKS_QUICK = ["stat", "sym", "inferral", "factory", "lookback", "longverif", "all", "quotient"]
+# redundant patterns with prefixes (the inferral packet and the initial packet of one label both apply)
+_STARTS_QUICK_EXTRA = [Av("", ["bb", "abb"], "ab"), Av("ab", ["bb", "bba"], "ab", False, ("nb",))]
+_PACKS_QUICK = ["stat", "sym", "inferral", "factory", "lookback", "longverif", "all", "quotient", "stale-verified",
+                "two-initial"]
 
 
 def _groups(tier):
     if tier == "quick":
-        packs, starts = [p for p in _PACKS_QUICK if p in PACKS], _STARTS[:6]
+        packs, starts = [p for p in _PACKS_QUICK if p in PACKS], _STARTS[:6] + _STARTS_QUICK_EXTRA
     else:
-        packs, starts = list(PACKS), _STARTS
+        packs, starts = list(PACKS), _STARTS + _STARTS_QUICK_EXTRA
     return [(db, pack, repr(s)) for db in RULEDBS for pack in packs for s in starts if pack_applicable(pack, s)]
 
 
@@ -565,8 +633,10 @@ def run(tier, seed):
         "bound": (f"{len(groups)} (rule database, pack, start class) groups = 3 rule databases x "
                   f"{len({g[1] for g in groups})} packs x {len({g[2] for g in groups})} start classes; for each, EVERY "
                   f"crash point k = 0..K with K = min(length of the whole work-packet sequence, {kmax}) "
-                  f"({counts['groups-whole-search-covered']} groups covered to the end of their search): (i) pickle "
-                  f"after k packets, continuation in slices {SLICES} up to {cont} packets, then auto_search; (ii) "
+                  f"({counts['groups-whole-search-covered']} groups covered to the end of their search; packs: the "
+                  f"universe's plus stale-verified and two-initial, which give one label several packets in a row): (i) "
+                  f"the k packets handled in one call of _expand_classes_for compared with one call per packet (k >= 2), "
+                  f"pickle after k packets, continuation in slices {SLICES} up to {cont} packets, then auto_search; (ii) "
                   f"time limit at clock reading k = 1..K+6, resumed under the split plans {PLANS} "
                   f"({'all of them at every k' if all_plans else 'same at every k, the two others alternating'}); "
                   f"specifications checked against brute force for n <= {NMAX}"),
